@@ -61,8 +61,15 @@ def register(M):
         items = interp.iterate(args[0], node)
         if kw.get('key') is not None:
             raise AnalysisError('sorted(key=) not modelled', node)
+        def sort_num(x):
+            # NaN / infinities take part in Python's comparisons as floats (no comparison with NaN holds: timsort keeps what it cannot order)
+            if isinstance(x, float) and (x != x or x in (float('inf'), float('-inf'))):
+                return x
+            if type(x).__name__ == 'NanConst' or (isinstance(x, Sc) and x.d == X.NAN):
+                return float('nan')
+            return conc_num(x, node)
         try:
-            vals = [conc_num(x, node) if not isinstance(x, str) else x for x in items]
+            vals = [sort_num(x) if not isinstance(x, str) else x for x in items]
         except AnalysisError:
             ts = [getattr(x, 'sort_key', None) for x in items]
             if all(t is not None for t in ts):
@@ -531,6 +538,23 @@ def register(M):
                 return interp.module(name)
             raise AbsRaise(ExcVal('ModuleNotFoundError', (name,)), node)
         return ExtRef(name)
+
+    @ext('importlib.util.find_spec')
+    def _find_spec(interp, args, kw, node):
+        """stdlib fact: find_spec imports the parent of a dotted name; a parent that is missing or is not a package raises
+        ModuleNotFoundError, a missing leaf under an existing package gives None"""
+        name = args[0]
+        if not isinstance(name, str):
+            raise AnalysisError('find_spec of non-constant', node)
+        if name.split('.')[0] != 'ioos_qc':
+            return ExtRef(name + '.__spec__')
+        if name in interp.repo.modules:
+            return ExtRef(name + '.__spec__')
+        parent = name.rsplit('.', 1)[0]
+        is_pkg = parent in interp.repo.modules and str(interp.repo.modules[parent].path).endswith('__init__.py')
+        if not is_pkg:
+            raise AbsRaise(ExcVal('ModuleNotFoundError', (f"No module named {parent!r} (or it is not a package)",)), node)
+        return None
 
     @ext('pathlib.Path')
     def _path(interp, args, kw, node):
